@@ -31,6 +31,8 @@ def hex (s : Str) : String :=
 
 def errStr : Err → String
   | .lineNumber => "err parse-error line-number"
+  | .lineCount n => s!"err parse-error line-count {n}"
+  | .eccentricity => "err parse-error eccentricity"
   | .size l n => s!"err parse-error size {l} {n}"
   | .checksum l => s!"err parse-error checksum {l}"
   | .valueError => "err value-error"
@@ -49,6 +51,10 @@ def parsedStr (p : Parsed) : String :=
 
 def unflOfToks : List String → Option (Unfl × List String)
   | "z" :: r => some (.zero, r)
+  | "s" :: n :: d :: r => do
+    let n ← n.toNat?
+    let d ← d.toNat?
+    pure (.small (n = 1) d, r)
   | n :: m :: e :: r => do
     let n ← n.toNat?
     let m ← m.toNat?
